@@ -112,6 +112,7 @@ def _alphabet(n: int) -> list[list]:
     ops: list[list] = [["one"], ["all"], ["pandas"], ["rowcount"]]
     ops += [["many", k] for k in ks]
     ops += [["as_many", a] for a in (1, 2, n + 1)]
+    ops += [["set_as", 2], ["set_as", 3], ["many_default"], ["many_default"]]
     return ops
 
 
@@ -183,8 +184,12 @@ def gen_cases(tier: str, seed: int):
                 script.append(["one"])
             elif y < 0.55:
                 script.append(["many", r.choice([1, 2, 3, 7, 100, 1000, 1024, n or 1, n + 1, r.randint(1, max(1, n))])])
-            elif y < 0.7:
+            elif y < 0.62:
                 script.append(["as_many", r.choice([1, 2, 5, 64, 1000, n + 1])])
+            elif y < 0.66:
+                script.append(["set_as", r.choice([1, 2, 5, 64, 1000])])
+            elif y < 0.7:
+                script.append(["many_default"])
             elif y < 0.78:
                 script.append(["all"])
             elif y < 0.85:
@@ -269,6 +274,7 @@ def run_case(case: dict, env: core.Env) -> None:
     cur.execute(sql)
     pos = 0
     handed = 0
+    asz = cur.arraysize  # the connector's default (1) until the script sets it
     for step, op in enumerate(case["script"]):
         kind = op[0]
         env.cover("op", kind)
@@ -317,8 +323,22 @@ def run_case(case: dict, env: core.Env) -> None:
             pos += len(exp_l)
         elif kind == "as_many":
             cur.arraysize = op[1]
+            asz = op[1]
             got_l = cur.fetchmany()
             exp_l = rows[pos:pos + op[1]]
+            pos += len(exp_l)
+        elif kind == "set_as":
+            cur.arraysize = op[1]
+            asz = op[1]
+            continue
+        elif kind == "many_default":
+            # fetchmany() hands out arraysize rows: the size last *set*, not the size of some earlier fetch call
+            env.count("cmp_arraysize")
+            if cur.arraysize != asz:
+                env.witness("C05/arraysize-changed-by-fetch", f"cursor.arraysize reads {cur.arraysize}, last set to {asz}; script {case['script'][:step + 1]}")
+                return
+            got_l = cur.fetchmany()
+            exp_l = rows[pos:pos + asz]
             pos += len(exp_l)
         elif kind == "all":
             got_l = cur.fetchall()
